@@ -3345,6 +3345,16 @@ impl<'s> Semantics<'s> {
             let lhs = self.operand_load(block, &detail.operands[0])?;
             let count = self.operand_load(block, &detail.operands[1])?;
 
+            // the count is first masked to 5 bits (6 bits for 64-bit operands): when that is zero
+            // no flag is written; the rotation itself is by the count modulo the width
+            let zero_count = Expr::cmpeq(
+                Expr::and(
+                    count.clone(),
+                    expr_const(if lhs.bits() == 64 { 0x3f } else { 0x1f }, count.bits()),
+                )?,
+                expr_const(0, count.bits()),
+            )?;
+
             let mut count = match lhs.bits() {
                 8 => Expr::and(count.clone(), expr_const(0x7, count.bits()))?,
                 16 => Expr::and(count.clone(), expr_const(0xf, count.bits()))?,
@@ -3374,25 +3384,30 @@ impl<'s> Semantics<'s> {
             )?;
 
             // CF is the bit sent from one end to the other. In our case, it should be LSB of result
-            block.assign(scalar("CF", 1), Expr::trun(1, result.clone())?);
+            block.assign(
+                scalar("CF", 1),
+                Expr::ite(
+                    zero_count.clone(),
+                    expr_scalar("CF", 1),
+                    Expr::trun(1, result.clone())?,
+                )?,
+            );
 
-            // OF is XOR of two most-significant bits of result
+            // OF (1-bit rotates) is the XOR of CF and the most-significant bit of the result
             block.assign(
                 scalar("OF", 1),
-                Expr::xor(
-                    Expr::trun(
-                        1,
-                        Expr::shr(
-                            result.clone(),
-                            expr_const(result.bits() as u64 - 1, result.bits()),
+                Expr::ite(
+                    zero_count,
+                    expr_scalar("OF", 1),
+                    Expr::xor(
+                        Expr::trun(
+                            1,
+                            Expr::shr(
+                                result.clone(),
+                                expr_const(result.bits() as u64 - 1, result.bits()),
+                            )?,
                         )?,
-                    )?,
-                    Expr::trun(
-                        1,
-                        Expr::shr(
-                            result.clone(),
-                            expr_const(result.bits() as u64 - 2, result.bits()),
-                        )?,
+                        Expr::trun(1, result.clone())?,
                     )?,
                 )?,
             );
@@ -3419,6 +3434,16 @@ impl<'s> Semantics<'s> {
             // get operands
             let lhs = self.operand_load(block, &detail.operands[0])?;
             let count = self.operand_load(block, &detail.operands[1])?;
+
+            // the count is first masked to 5 bits (6 bits for 64-bit operands): when that is zero
+            // no flag is written; the rotation itself is by the count modulo the width
+            let zero_count = Expr::cmpeq(
+                Expr::and(
+                    count.clone(),
+                    expr_const(if lhs.bits() == 64 { 0x3f } else { 0x1f }, count.bits()),
+                )?,
+                expr_const(0, count.bits()),
+            )?;
 
             let mut count = match lhs.bits() {
                 8 => Expr::and(count.clone(), expr_const(0x7, count.bits()))?,
@@ -3451,19 +3476,9 @@ impl<'s> Semantics<'s> {
             // CF is the bit sent from one end to the other. In our case, it should be MSB of result
             block.assign(
                 scalar("CF", 1),
-                Expr::trun(
-                    1,
-                    Expr::shr(
-                        result.clone(),
-                        expr_const(result.bits() as u64 - 1, result.bits()),
-                    )?,
-                )?,
-            );
-
-            // OF is XOR of two most-significant bits of result
-            block.assign(
-                scalar("OF", 1),
-                Expr::xor(
+                Expr::ite(
+                    zero_count.clone(),
+                    expr_scalar("CF", 1),
                     Expr::trun(
                         1,
                         Expr::shr(
@@ -3471,11 +3486,29 @@ impl<'s> Semantics<'s> {
                             expr_const(result.bits() as u64 - 1, result.bits()),
                         )?,
                     )?,
-                    Expr::trun(
-                        1,
-                        Expr::shr(
-                            result.clone(),
-                            expr_const(result.bits() as u64 - 2, result.bits()),
+                )?,
+            );
+
+            // OF is XOR of two most-significant bits of result
+            block.assign(
+                scalar("OF", 1),
+                Expr::ite(
+                    zero_count,
+                    expr_scalar("OF", 1),
+                    Expr::xor(
+                        Expr::trun(
+                            1,
+                            Expr::shr(
+                                result.clone(),
+                                expr_const(result.bits() as u64 - 1, result.bits()),
+                            )?,
+                        )?,
+                        Expr::trun(
+                            1,
+                            Expr::shr(
+                                result.clone(),
+                                expr_const(result.bits() as u64 - 2, result.bits()),
+                            )?,
                         )?,
                     )?,
                 )?,
